@@ -191,7 +191,15 @@ func (r *rig) c08Wire() string {
 			continue // sender stopped / crashed, or everything was reported as received
 		}
 		want := w.Parts[n:]
-		if sig(retry.Parts) != sig(want) {
+		// parts of a file that changed on disk in the meantime are dropped from the retry on purpose
+		// (the new version is queued afresh): the remainder without them is as good
+		var kept []wirePart
+		for _, p := range want { // (r.mu is held by this function)
+			if !r.changed[p.Name] {
+				kept = append(kept, p)
+			}
+		}
+		if sig(retry.Parts) != sig(want) && !(len(kept) > 0 && sig(retry.Parts) == sig(kept)) {
 			return fmt.Sprintf("C08: after the failed request %s (fault %q, error %q) the receiver reported %d leading part(s) as recorded, so the remainder is %s; the sender sent %s instead",
 				sig(w.Parts), w.Fault, w.Err, n, sig(want), sig(retry.Parts))
 		}
